@@ -128,74 +128,74 @@ theorem CompR.empty_ok {ι : Type} [Stream ι] (P : Params) (K : Codec) (rd : Na
     stored-only brotli codec; inner stream = in-memory cursor) -/
 
 section Example
-def exP : Params := Params.scaled 4 3 8 2 4 (by decide)
-def exPlain : Bytes := [10, 11, 12, 13, 14, 15, 16, 17, 18, 19, 20]
+def cexP : Params := Params.scaled 4 3 8 2 4 (by decide)
+def cexPlain : Bytes := [10, 11, 12, 13, 14, 15, 16, 17, 18, 19, 20]
 
 /-- one block through the encoder: `write` then `into_inner` -/
-def exEnc (b : Bytes) : Bytes :=
+def cexEnc (b : Bytes) : Bytes :=
   let r := Codec.stored.runActs (Codec.stored.einit 0) [.write b]
   r.2 ++ Codec.stored.efinish r.1
 
-def exCs : List Bytes := [exEnc (blockOf exP exPlain 0), exEnc (blockOf exP exPlain 1)]
-def exE : Bytes := exCs.flatten ++ encSizes ⟨exCs.map List.length, 3⟩
+def cexCs : List Bytes := [cexEnc (blockOf cexP cexPlain 0), cexEnc (blockOf cexP cexPlain 1)]
+def cexE : Bytes := cexCs.flatten ++ encSizes ⟨cexCs.map List.length, 3⟩
 
-example : exCs = [[112, 0, 16, 10, 11, 12, 13, 14, 15, 16, 17, 3], [32, 0, 16, 18, 19, 20, 3]] := by
+example : cexCs = [[112, 0, 16, 10, 11, 12, 13, 14, 15, 16, 17, 3], [32, 0, 16, 18, 19, 20, 3]] := by
   decide
 
-theorem exComp : IsCompressed exP Codec.stored exPlain exCs exE where
+theorem cexComp : IsCompressed cexP Codec.stored cexPlain cexCs cexE where
   layout := rfl
   count := by decide
   blocks := by
     intro k hk
-    have : k = 0 ∨ k = 1 := by simp only [exCs, List.length_cons, List.length_nil] at hk; omega
+    have : k = 0 ∨ k = 1 := by simp only [cexCs, List.length_cons, List.length_nil] at hk; omega
     rcases this with rfl | rfl <;> decide +revert
 
-theorem exFits : CompFits exP exCs where
+theorem cexFits : CompFits cexP cexCs where
   csz := by decide
   tbl := by decide
   block := by decide
 
-abbrev exInvI : Cur → Prop := fun c => c.data = exE ∧ c.pos ≤ exE.length
+abbrev cexInvI : Cur → Prop := fun c => c.data = cexE ∧ c.pos ≤ cexE.length
 
 /-- the hypotheses of `CompRd.isCursor` are satisfiable -/
-example : IsCursor (σ := CompRd exP Codec.stored id Cur)
-    (CompRd.Inv exP Codec.stored exPlain exCs exE exInvI (·.pos)) (fun s => s.r.upos) exPlain :=
-  CompRd.isCursor exP Codec.stored id (fun m hm => ⟨hm, Nat.le_refl m⟩) rfl exPlain exCs exE
-    exComp (Cur.isCursor _)
+example : IsCursor (σ := CompRd cexP Codec.stored id Cur)
+    (CompRd.Inv cexP Codec.stored cexPlain cexCs cexE cexInvI (·.pos)) (fun s => s.r.upos) cexPlain :=
+  CompRd.isCursor cexP Codec.stored id (fun m hm => ⟨hm, Nat.le_refl m⟩) rfl cexPlain cexCs cexE
+    cexComp (Cur.isCursor _)
 
 /-- and the initial state exists -/
-example : ∃ r, CompR.init (⟨exE, 0⟩ : Cur) = .ok r ∧
-    CompRd.Inv (rd := id) exP Codec.stored exPlain exCs exE exInvI (·.pos) ⟨r⟩ ∧ r.upos = 0 :=
-  CompR.init_ok exP Codec.stored id exPlain exCs exE exComp exFits (Cur.isCursor _) _
+example : ∃ r, CompR.init (⟨cexE, 0⟩ : Cur) = .ok r ∧
+    CompRd.Inv (rd := id) cexP Codec.stored cexPlain cexCs cexE cexInvI (·.pos) ⟨r⟩ ∧ r.upos = 0 :=
+  CompR.init_ok cexP Codec.stored id cexPlain cexCs cexE cexComp cexFits (Cur.isCursor _) _
     ⟨rfl, Nat.zero_le _⟩
 
 /-- the empty plaintext: hypotheses of `CompR.empty_ok` are satisfiable -/
-theorem exCompEmpty : IsCompressed exP Codec.stored [] [] (encSizes ⟨[], 0⟩) :=
+theorem cexCompEmpty : IsCompressed cexP Codec.stored [] [] (encSizes ⟨[], 0⟩) :=
   ⟨rfl, by decide, fun k h => by simp at h⟩
 
 example : ∃ r, CompR.init (⟨encSizes ⟨[], 0⟩, 0⟩ : Cur) = .ok r ∧ r.upos = 0 := by
-  obtain ⟨r, h, _, h0, _⟩ := CompR.empty_ok exP Codec.stored id (fun m hm => ⟨hm, Nat.le_refl m⟩) rfl
-    [] (encSizes ⟨[], 0⟩) exCompEmpty (Cur.isCursor _) (⟨encSizes ⟨[], 0⟩, 0⟩ : Cur)
+  obtain ⟨r, h, _, h0, _⟩ := CompR.empty_ok cexP Codec.stored id (fun m hm => ⟨hm, Nat.le_refl m⟩) rfl
+    [] (encSizes ⟨[], 0⟩) cexCompEmpty (Cur.isCursor _) (⟨encSizes ⟨[], 0⟩, 0⟩ : Cur)
     ⟨rfl, Nat.zero_le _⟩
   exact ⟨r, h, h0⟩
 
 /-- why `rd 0 = 0` is needed: with a policy that is only constrained on `m > 0`, a `read` of at most
     0 bytes right after `initialize` hands out 5 bytes -/
-example : (match CompR.init (⟨exE, 0⟩ : Cur) with
-    | .ok r => match (CompR.readFull exP Codec.stored (fun m => if m = 0 then 5 else m) 3 r 0).2 with
+example : (match CompR.init (⟨cexE, 0⟩ : Cur) with
+    | .ok r => match (CompR.readFull cexP Codec.stored (fun m => if m = 0 then 5 else m) 3 r 0).2 with
       | .ok b => b
       | .error _ => []
     | .error _ => []) = [10, 11, 12, 13, 14] := by decide
 
 /-- the model reader run on the example: reads of at most 5 bytes from position 0, then a seek to
     position 9 and a read -/
-example : (match CompR.init (⟨exE, 0⟩ : Cur) with
+example : (match CompR.init (⟨cexE, 0⟩ : Cur) with
     | .ok r =>
-      match CompR.readFull exP Codec.stored id 3 r 5 with
-      | (r1, .ok b1) => match CompR.readFull exP Codec.stored id 3 r1 5 with
-        | (r2, .ok b2) => match CompR.readFull exP Codec.stored id 3 r2 5 with
-          | (r3, .ok b3) => match CompR.seekFull exP Codec.stored r3 (.fromEnd (-2)) with
-            | (r4, .ok _) => match CompR.readFull exP Codec.stored id 3 r4 5 with
+      match CompR.readFull cexP Codec.stored id 3 r 5 with
+      | (r1, .ok b1) => match CompR.readFull cexP Codec.stored id 3 r1 5 with
+        | (r2, .ok b2) => match CompR.readFull cexP Codec.stored id 3 r2 5 with
+          | (r3, .ok b3) => match CompR.seekFull cexP Codec.stored r3 (.fromEnd (-2)) with
+            | (r4, .ok _) => match CompR.readFull cexP Codec.stored id 3 r4 5 with
               | (_, .ok b4) => [b1, b2, b3, b4]
               | _ => []
             | _ => []
